@@ -451,7 +451,8 @@ func genCrash(r *rand.Rand, n int, tier string, out *bufio.Writer) {
 	for _, l := range strings.Split(strings.TrimSpace(b.String()), "\n") {
 		// scenario: 0 plain, 1 a leftover in-progress file of a killed earlier process has the first
 		// name, 2 another goroutine calls Rotate while a record is half written
-		fmt.Fprintf(out, "crash %d %d%s\n", pick(r, []int{0, 0, 1, 2, 2}), r.Intn(6), strings.TrimPrefix(l, "writer"))
+		// 3 a marshaler that hands back a continuation segment for every third record
+		fmt.Fprintf(out, "crash %d %d%s\n", pick(r, []int{0, 0, 1, 2, 2, 3, 3}), r.Intn(6), strings.TrimPrefix(l, "writer"))
 	}
 }
 
@@ -518,6 +519,25 @@ func runCrash(toks []string) (string, string) {
 			return err
 		}))
 	}
+	if scen == 3 {
+		var contRecs []gowarc.WarcRecord
+		for i := 0; i < nrec; i += 3 {
+			id := fmt.Sprintf("urn:uuid:cccccccc-0000-0000-0000-%012d", i)
+			rb := gowarc.NewRecordBuilder(gowarc.Continuation, gowarc.WithBufferTmpDir(tmp), gowarc.WithRecordIdFunc(func() (string, error) { return id, nil }))
+			rb.AddWarcHeader("WARC-Date", "2021-05-06T07:08:09Z")
+			rb.AddWarcHeader("WARC-Segment-Number", "2")
+			rb.AddWarcHeader("WARC-Segment-Origin-ID", "<"+recID(i)+">")
+			rb.AddWarcHeader("Content-Type", "text/plain")
+			rb.WriteString("continued")
+			cr, _, err := rb.Build()
+			if err != nil {
+				return "BUILDERR", "-"
+			}
+			contRecs = append(contRecs, cr)
+			defer cr.Close()
+		}
+		opts = append(opts, gowarc.WithMarshaler(&splitMarshaler{inner: gowarc.NewMarshaler(), conts: contRecs, recs: recs}))
+	}
 	leftover := ""
 	var leftoverContent []byte
 	if scen == 1 {
@@ -575,7 +595,8 @@ func runCrash(toks []string) (string, string) {
 	wref = w
 	type ack struct {
 		resp gowarc.WriteResponse
-		at   int // number of acks before this one
+		at   int    // number of acks before this one
+		id   string // WARC-Record-ID of the record this acknowledges
 	}
 	var acks []ack
 	nops := t.nextInt()
@@ -589,9 +610,9 @@ func runCrash(toks []string) (string, string) {
 		for x := 0; x < k; x++ {
 			batch = append(batch, recs[t.nextInt()])
 		}
-		for _, rs := range w.Write(batch...) {
+		for bi, rs := range w.Write(batch...) {
 			if rs.Err == nil {
-				acks = append(acks, ack{rs, acked})
+				acks = append(acks, ack{rs, acked, batch[bi].WarcHeader().Get("WARC-Record-ID")})
 				acked++
 			}
 		}
@@ -640,6 +661,12 @@ func runCrash(toks []string) (string, string) {
 		}
 		rd.Close()
 	}
+	// the reported place holds the record that was acknowledged, not some other record
+	for _, a := range acks {
+		if got := recordIDAt(final[a.resp.FileName], a.resp.FileOffset); got != a.id {
+			return "wrong-record", fmt.Sprintf("FAIL:crash-unsafe:the record acknowledged at %s@%d is %s there, %s was written", a.resp.FileName, a.resp.FileOffset, got, a.id)
+		}
+	}
 	// record lengths in the final files (for "fully present")
 	for si, s := range snaps {
 		for nme, content := range s.files {
@@ -674,6 +701,24 @@ func runCrash(toks []string) (string, string) {
 		}
 	}
 	return fmt.Sprintf("snaps=%d;trace=%s", len(snaps), strings.Join(trace, ",")), "OK"
+}
+
+// recordIDAt: WARC-Record-ID of the record that starts at off ("" when there is none)
+func recordIDAt(file []byte, off int64) string {
+	if off < 0 || off > int64(len(file)) {
+		return ""
+	}
+	rd, err := gowarc.NewWarcFileReaderFromStream(bytes.NewReader(file), off)
+	if err != nil {
+		return ""
+	}
+	defer rd.Close()
+	rec, _, _, err := rd.Next()
+	if err != nil || rec == nil {
+		return ""
+	}
+	defer rec.Close()
+	return rec.WarcHeader().Get("WARC-Record-ID")
 }
 
 // recordEnd: where the record that starts at off ends (next record start or end of file)
